@@ -50,7 +50,7 @@ fn build_limit_script(rng: &mut Rng, id: usize, limit: usize) -> (Vec<u8>, Vec<(
     let nreq = rng.range(1, 3);
     for k in 0..nreq {
         let tag = format!("c{}r{}", id, k);
-        let cands: Vec<u64> = vec![0, 1, limit.saturating_sub(1) as u64, limit as u64, limit as u64 + 1, (limit as u64).saturating_mul(2) + 3, 4294967295];
+        let cands: Vec<u64> = vec![0, 1, 5, limit.saturating_sub(1) as u64, limit as u64, (limit as u64).saturating_add(1), (limit as u64).saturating_mul(2).saturating_add(3), 4294967295];
         let n = (*rng.pick(&cands)).min(4294967295);
         let method = *rng.pick(&["GET", "PUT", "PATCH"]);
         let mut head = format!("{} /{} HTTP/1.1\r\n", method, tag);
@@ -151,6 +151,8 @@ pub fn gen_srv_case(rng: &mut Rng, profile: Profile, prop: &'static str) -> SrvC
         scripts: Vec::new(),
         steps: Vec::new(),
         kill_at: None,
+        kill_after_start: rng.chance(1, 3),
+        fds_from_zero: rng.chance(1, 6),
     };
     let mut st = Stats::default();
     let mut flags = flags_for(prop, profile);
@@ -279,7 +281,14 @@ pub fn gen_srv_case(rng: &mut Rng, profile: Profile, prop: &'static str) -> SrvC
                     Profile::Limits => true,
                     Profile::Expect => false,
                 };
-                let nreq = if profile == Profile::Capacity { rng.range(0, 2) } else { rng.range(1, 4) };
+                let nreq = if profile == Profile::Capacity {
+                    rng.range(0, 2)
+                } else if rng.chance(1, 12) {
+                    // a client that pipelines many small requests (batches of more than 20 answers)
+                    rng.range(9, 16)
+                } else {
+                    rng.range(1, 4)
+                };
                 let (script, marks) = if profile == Profile::Limits {
                     build_limit_script(rng, id, cur_limit)
                 } else {
@@ -378,7 +387,7 @@ pub fn gen_srv_case(rng: &mut Rng, profile: Profile, prop: &'static str) -> SrvC
             }
             8 => {
                 let l = if profile == Profile::Limits {
-                    *rng.pick(&[0usize, 1, 2, 3, 7, 8, 64, 1023, 1024, 1025, 51199, 51200, 51201, 4294967295])
+                    *rng.pick(&[0usize, 1, 2, 3, 7, 8, 64, 1023, 1024, 1025, 51199, 51200, 51201, 4294967295, 4294967296, 4294967300, usize::MAX])
                 } else {
                     *rng.pick(&[0usize, 4, 64, 1000, 51200, 100_000])
                 };
@@ -581,6 +590,16 @@ fn shrink_srv(case: &SrvCase) -> Vec<SrvCase> {
     if case.limit.is_some() {
         let mut c = case.clone();
         c.limit = None;
+        out.push(c);
+    }
+    if case.kill_after_start {
+        let mut c = case.clone();
+        c.kill_after_start = false;
+        out.push(c);
+    }
+    if case.fds_from_zero {
+        let mut c = case.clone();
+        c.fds_from_zero = false;
         out.push(c);
     }
     out
@@ -871,6 +890,8 @@ fn full_house(rng: &mut Rng) -> SrvCase {
         scripts: Vec::new(),
         steps: Vec::new(),
         kill_at: None,
+        kill_after_start: rng.chance(1, 3),
+        fds_from_zero: rng.chance(1, 6),
     };
     let n = *rng.pick(&[10usize, 10, 10, 9, 8]);
     for c in 0..n {
